@@ -82,6 +82,9 @@ func genFqConfig(r *rand.Rand, strs map[string]int64) ([]*fpb.Value, []fqVal, in
 		v := &fpb.Value{Path: []string{id}, Timestamp: &fpb.Timestamp{Timestamp: ts, DeltaMin: dmin, DeltaMax: dmax}, Repeat: rep}
 		if r.Intn(3) == 0 {
 			v.Seed = int64(1 + r.Intn(5))
+			if r.Intn(4) == 0 {
+				v.Seed = -v.Seed
+			}
 		}
 		rec := fqVal{ID: id, Kind: "const", Ts: ts, Dmin: dmin, Dmax: dmax, Repeat: rep, Opts: []int64{}, Pos: 1}
 		switch r.Intn(10) {
@@ -234,6 +237,12 @@ func fakequeueRandom(args []string) error {
 		strs := map[string]int64{"const": 50}
 		vals, recs, latest := genFqConfig(r, strs)
 		gseed := int64(1 + r.Intn(1000))
+		switch r.Intn(6) { // any non-zero seed is a seed: negative and extreme ones too
+		case 0:
+			gseed = -gseed
+		case 1:
+			gseed = []int64{math.MaxInt64, math.MinInt64, -1, 1 << 32}[r.Intn(4)]
+		}
 		window := *emit * 4
 		a, endA := fqRun(vals, latest, gseed, window, strs)
 		b, _ := fqRun(vals, latest, gseed, window, strs)
